@@ -247,10 +247,15 @@ func (g *GroupWorld) bootstrap() {
 		i.Launch = now.Add(-age - time.Minute)
 		node := g.makeNode(i, now.Add(-age))
 		// leftovers of a previous controller lifetime / operators
-		switch s.Pick(12, 2, 1, 1, 1) {
+		pr := w.prof
+		annotateToo := s.Chance(pr.PAnnotate)
+		switch s.Pick(12, 2+int(pr.PExtTaint*8), 1+int(pr.PCordon*4), 1+int(pr.PAnnotate*4), 1+int(pr.PForceTaint*4)) {
 		case 1:
 			stamp := now.Add(-time.Duration(s.Intn(int(g.cfg.Hard/time.Second)+120)) * time.Second).Unix()
 			node.Spec.Taints = append(node.Spec.Taints, v1.Taint{Key: escTaint, Value: strconv.FormatInt(stamp, 10), Effect: v1.TaintEffectNoSchedule})
+			if annotateToo {
+				node.Annotations = map[string]string{noDelete: "keep"}
+			}
 		case 2:
 			node.Spec.Unschedulable = true
 		case 3:
@@ -350,7 +355,10 @@ func (g *GroupWorld) spawnPod(s *Stream, edge bool) *v1.Pod {
 		}
 		p.Spec.Containers = append(p.Spec.Containers, mkc(fmt.Sprintf("c%d", k), cpu, mem))
 	}
-	switch s.Pick(7, 1, 1, 1) {
+	switch s.Pick(7, 1, 1, 1, 1) {
+	case 4: // no single init container is the largest in both resources
+		p.Spec.InitContainers = []v1.Container{mkc("init-cpu", "6", "16Mi"), mkc("init-mem", "20m", "24Gi"), mkc("init-mid", "1", "1Gi")}
+		shape += "+init-cross"
 	case 1:
 		p.Spec.InitContainers = []v1.Container{mkc("init", "50m", "32Mi")}
 		shape += "+init-small"
@@ -364,6 +372,10 @@ func (g *GroupWorld) spawnPod(s *Stream, edge bool) *v1.Pod {
 	if g.w.cfg.OddObjects && s.Chance(0.05) {
 		p.Spec.Containers = nil
 		shape = "no-containers"
+	}
+	if g.w.cfg.OddObjects && s.Chance(0.04) { // absurd but valid request: totals beyond 2^63/1e5 bytes
+		p.Spec.Containers = append(p.Spec.Containers, mkc("huge", "100m", []string{"90Ti", "200Ti", "1Pi"}[s.Intn(3)]))
+		shape += "+huge-mem"
 	}
 	g.w.stats.Shapes["pod:"+shape]++
 	dur := time.Duration(1+s.Intn(40)) * g.w.cfg.ScanInterval / 2
